@@ -6,6 +6,10 @@
 (* GridRows rows / GridShanks shanks of each grid, both encodings, sorted   *)
 (* and unsorted, unsplit and split by every shank.  The property layer of  *)
 (* Geometry.tla is instantiated with the model's own values.               *)
+(* Every site of the small grid carries a draw flag fixed by FlagPattern    *)
+(* (0 on about half of the sites, as SpikeGLX writes for reference sites):  *)
+(* the selections mix flagged and unflagged entries in every order at no    *)
+(* cost in states.                                                         *)
 (* Export (POSTCONDITION): every case of a smaller box with the header the  *)
 (* specification expects, replayed on the real code by harness/c08.py.     *)
 (***************************************************************************)
@@ -23,10 +27,13 @@ Sel(gen) == IF gen = "NPU" THEN MaxSelU ELSE MaxSel
 \* ordered selections of k distinct sites
 Tables(gen, kmax) ==
     UNION {{t \in [1..k -> SmallGrid(gen)] : \A i, j \in 1..k : i # j => t[i] # t[j]} : k \in 1..kmax}
+\* the draw flag SpikeGLX would write for a site of the small grid: both values occur in every row of every grid
+FlagPattern(s) == (s[1] + s[2] + s[3] + (s[3] \div 2)) % 2
+Flagged(t) == [i \in DOMAIN t |-> <<t[i][1], t[i][2], t[i][3], FlagPattern(t[i])>>]
 Splits(gen, t) == {-1} \cup (IF gen = "NP2" THEN {t[i][1] : i \in DOMAIN t} ELSE {})
 
 Init == /\ g \in Gens
-        /\ sites \in Tables(g, Sel(g))
+        /\ sites \in {Flagged(t) : t \in Tables(g, Sel(g))}
         /\ enc \in Encodings(g)
         /\ srt \in BOOLEAN
         /\ split \in Splits(g, sites)
@@ -56,6 +63,8 @@ MSortHeader(hs) ==
             IN [i \in 1..Len(s) |-> [s[i] EXCEPT !.adc = AdcOf(g, i - 1), !.shift = ShiftNum(g, i - 1)]]
       [] Mutant = "ind_unsorted" ->
             LET s == SortHeader(hs, TRUE) IN [i \in 1..Len(s) |-> [s[i] EXCEPT !.ind = i - 1]]
+      [] Mutant = "flag_unsorted" ->
+            LET s == SortHeader(hs, TRUE) IN [i \in 1..Len(s) |-> [s[i] EXCEPT !.flag = hs[i].flag]]
       [] OTHER -> SortHeader(hs, TRUE)
 SortStep == /\ pc = "split" /\ pc' = "done"
             /\ th' = IF srt THEN MSortHeader(th) ELSE th
@@ -67,7 +76,7 @@ Spec == Init /\ [][Next]_vars
 
 -----------------------------------------------------------------------------
 (* intermediate facts (implementation layer) *)
-CoordsOnGrid == pc = "coords" => \A i \in 1..Len(th) : SiteOf(th[i]) = sites[i] /\ XYExact(g, th[i].x, th[i].y)
+CoordsOnGrid == pc = "coords" => \A i \in 1..Len(th) : SiteOf(th[i]) = Site3(sites[i]) /\ th[i].flag = FlagOf(sites[i]) /\ XYExact(g, th[i].x, th[i].y)
 Composition == pc = "done" => th = Header(g, enc, sites, srt, split) /\ inds = HeaderIndex(g, enc, sites, srt, split)
 
 (* property layer on the model's result *)
@@ -100,7 +109,7 @@ Flat(h) == <<h.shank, h.row, h.col, h.x, h.y, h.adc, h.shift, h.ind, h.flag>>
 ESel(gen) == IF gen = "NPU" THEN 2 ELSE ExportSel
 ExportCases ==
     UNION {{[gen |-> gen, sites |-> t, enc |-> e, sort |-> s, split |-> sp] :
-                t \in Tables(gen, ESel(gen)), e \in Encodings(gen), s \in BOOLEAN, sp \in -1..3} : gen \in Gens}
+                t \in {Flagged(u) : u \in Tables(gen, ESel(gen))}, e \in Encodings(gen), s \in BOOLEAN, sp \in -1..3} : gen \in Gens}
 ValidCase(c) == c.split \in Splits(c.gen, c.sites)
 Export ==
     /\ TLCGet("distinct") >= 0
